@@ -212,7 +212,7 @@ func record(args []string) error {
 	}
 	c.stage = "T history"
 	c.historyIP(histIP, vh.Rand(22))
-	c.historyNames(histNames, vh.Rand(24))
+	c.historyNames(histNames, vh.Rand(24), true)
 	if err := trIP.Close(); err != nil {
 		return err
 	}
